@@ -305,6 +305,12 @@ def run(ctx) -> None:
     ctx.rule("C07.R13-stored-description-is-never-absent", "the writers of conf/flowir_instance.yaml and conf/manifest.yaml never remove the file they are "
              "about to replace: while it is absent (a fault, or simply another load during the window) a reload silently falls back to the package "
              "and every loop iteration instantiated so far is gone (the C14 write-discipline analysis re-used)")
+    ctx.rule("C07.R15-flattened-environments-keep-the-default-layer", "the stored instance folds the selected platform into 'default': each environment "
+             "of the platform is layered over the same-named default environment variable by variable (C17.R3's obligation on instance()), "
+             "so a reload resolves the environment the writer resolved")
+    ctx.rule("C07.R16-layered-answers-are-stored-as-given", "a getter of FlowIRConcrete that lays the platform's entry over the default platform's itself "
+             "(virtual environments, application dependencies) is asked by instance() for the selected platform only; its answer for "
+             "'default' is not merged in a second time")
     ctx.rule("C07.R14-flattened-components-keep-their-own-layers", "the stored instance folds the selected platform into 'default'; the variables that "
              "FlowIRConcrete.instance() stores for a component come from get_component_variables with every COMPONENT-level layer on (the "
              "component's own variables and those of its override for the platform) - only the global/stage scope layers, which instance() folds "
@@ -587,6 +593,62 @@ def run(ctx) -> None:
             n13 += 1
     ctx.functions_analysed |= sub_ctx.functions_analysed
     ctx.floor("C07.R13-stored-description-is-never-absent", n13, 3, "write-discipline obligations of the two conf/ writers re-used from the C14 analysis")
+
+    # ---------------- R15: the flattened environments keep the default platform's layer ----------------
+    # instance() folds the selected platform into 'default' and the reload reads 'default' only: what the writer resolved for an
+    # environment (platform over default, variable by variable) must be what is stored.  The obligation is C17.R3's (seed C07-13).
+    from checks import c17
+    sub17 = _Ctx("C17", ctx.tier, ctx.repo)
+    c17.run(sub17)
+    n15 = 0
+    for o in sub17.obligations:
+        if o["rule"] == "C17.R3-layering" and "instance()" in (o.get("construct") or ""):
+            o2 = dict(o)
+            o2["rule"] = "C07.R15-flattened-environments-keep-the-default-layer"
+            o2["what"] = "[%s] %s" % (o["rule"], o["what"]) + ("" if o["ok"] else
+                          " - the stored instance holds the platform's environment only; reloaded, its tasks miss the variables the writer's get_environment() had")
+            ctx.obligations.append(o2)
+            n15 += 1
+    ctx.functions_analysed |= sub17.functions_analysed
+    ctx.require(n15 >= 1, "anchor missing: the instance() layering obligation of C17.R3")
+
+    # ---------------- R16: what a platform-layering getter answers is what is stored -------------------
+    # A getter of FlowIRConcrete that itself lays the platform's entry over the default platform's (it reads both <field>[platform] and
+    # <field>[default]) already answers for the platform.  instance() stores that answer; combining it once more with the getter's
+    # answer for 'default' brings back what the platform shadows (defect: a default virtual environment that the platform replaces by
+    # folder id was stored next to its replacement, and in front of it).
+    fcls = flm_ = ctx.repo.module("python/experiment/model/frontends/flowir.py")
+    inst16 = fcls.func("FlowIRConcrete.instance")
+    layering = {}
+    for q16, f16 in fcls.functions.items():
+        if not q16.startswith("FlowIRConcrete.get_") or q16.count(".") != 1:
+            continue
+        if "platform" not in [a_.arg for a_ in f16.args.args + f16.args.kwonlyargs]:
+            continue
+        def reads(e, what):
+            if isinstance(e, ast.Subscript):
+                k_ = e.slice
+            elif isinstance(e, ast.Call) and last_attr(e) == "get" and e.args:
+                k_ = e.args[0]
+            else:
+                return False
+            return (isinstance(k_, ast.Name) and k_.id == "platform") if what == "platform" else (dotted(k_) or "").endswith("LabelDefault")
+        rp = [x for x in source.walk_own(f16) if reads(x, "platform")]
+        rd = [x for x in source.walk_own(f16) if reads(x, "default")]
+        if rp and rd and {source.src(x.value if isinstance(x, ast.Subscript) else x.func.value) for x in rp} & \
+                {source.src(x.value if isinstance(x, ast.Subscript) else x.func.value) for x in rd}:
+            layering[f16.name] = f16
+    ctx.require(len(layering) >= 2, "anchor missing: the platform-layering getters of FlowIRConcrete (found %s)" % sorted(layering))
+    for c_ in source.calls_in(inst16, include_nested=False):
+        if last_attr(c_) in layering and isinstance(c_.func, ast.Attribute) and dotted(c_.func.value) == "self":
+            argv = list(c_.args) + [k.value for k in c_.keywords]
+            dflt = any((dotted(a_) or "").endswith("LabelDefault") for a_ in argv)
+            ctx.ob("C07.R16-layered-answers-are-stored-as-given", c_, not dflt,
+                   "instance() asks %s for the selected platform" % last_attr(c_) if not dflt else
+                   "instance() also asks %s for the DEFAULT platform and combines the two answers, although the getter lays the platform over the "
+                   "default itself: an entry of the default platform that the selected platform shadows is stored next to (and before) its "
+                   "replacement, so the reloaded instance answers ['/a/venv', '/a/other', '/b/venv'] where the writer answered ['/b/venv', '/a/other']"
+                   % last_attr(c_), construct="instance(): %s(platform) stored as answered" % last_attr(c_))
 
     # ---------------- R14: the flattened component keeps its own layers ---------------------------------
     flm = ctx.repo.module("python/experiment/model/frontends/flowir.py")
